@@ -2,11 +2,11 @@ package exec
 
 import (
 	"fmt"
-	"time"
 	"go/constant"
 	"go/token"
 	"go/types"
 	"strings"
+	"time"
 
 	"golang.org/x/tools/go/ssa"
 
@@ -606,7 +606,8 @@ func (m *Machine) invoke(t *Thread, fn Value, args []Value, ins ssa.Instruction,
 		h(ctx)
 		return
 	}
-	if callee.Blocks == nil {
+	m.P.waitBuild()
+	if callee.Blocks == nil || (callee.Pkg != nil && !m.P.isBuilt(callee.Pkg)) {
 		m.P.build(callee.Pkg)
 		if callee.Blocks == nil {
 			panic(unsupported("call to function without body: " + callee.String() + " at " + m.pos(ins)))
